@@ -6,6 +6,7 @@ static uint64_t rs = 88172645463325252ULL;
 static uint64_t rnd(void) { rs ^= rs << 13; rs ^= rs >> 7; rs ^= rs << 17; return rs; }
 enum { NH = 4, NB = 300 };
 static mi_heap_t* heaps[NH + 1]; static void* blk[NB]; static size_t bsz[NB];
+static int nod[NH + 1];   // heap created without allow_destroy: mi_heap_destroy must behave as mi_heap_delete (release builds; debug builds assert)
 static int nfail = 0;
 static void dump(void) {
   mi_heap_t* d = mi_heap_get_default(); int di = -9; for (int i = 0; i <= NH; i++) if (heaps[i] == d) di = i;
@@ -26,12 +27,18 @@ int main(int argc, char** argv) {
     unsigned op = (unsigned)(rnd() % 100); int h = 1 + (int)(rnd() % NH); int b = (int)(rnd() % NB);
     static const size_t SZ[] = { 8, 24, 64, 200, 640, 1024, 3000, 9000, 70000, 300000 };
     size_t n = SZ[rnd() % 10];
-    if (op < 10) { if (!heaps[h]) heaps[h] = mi_heap_new(); printf("H new %d", h); }
+    if (op < 10) { int nd = 0;
+#ifdef NDEBUG
+      nd = (rnd() % 3 == 0);
+#endif
+      if (!heaps[h]) { heaps[h] = nd ? mi_heap_new_ex(0, false, _mi_arena_id_none()) : mi_heap_new(); nod[h] = nd; } else nd = nod[h];
+      printf("H %s %d", nd ? "newnod" : "new", h); }
     else if (op < 45) { int hh = (int)(rnd() % (NH + 1)); if (heaps[hh] && !blk[b]) { blk[b] = mi_heap_malloc(heaps[hh], n); bsz[b] = n; memset(blk[b], b * 31 + 7, n); } printf("H alloc %d %d", hh, b); }
     else if (op < 60) { if (!blk[b]) { blk[b] = (rnd() % 2) ? mi_malloc(n) : mi_zalloc_aligned(n, 64); bsz[b] = n; memset(blk[b], b * 31 + 7, n); } printf("H allocdefault %d", b); }
     else if (op < 85) { if (blk[b]) { mi_free(blk[b]); blk[b] = NULL; } printf("H free %d", b); }
-    else if (op < 90) { if (heaps[h]) { mi_heap_delete(heaps[h]); heaps[h] = NULL; } printf("H delete %d", h); }
-    else if (op < 94) { if (heaps[h]) { for (int k = 0; k < NB; k++) if (blk[k] && mi_heap_contains_block(heaps[h], blk[k])) blk[k] = NULL; mi_heap_destroy(heaps[h]); heaps[h] = NULL; } printf("H destroy %d", h); }
+    else if (op < 90) { if (heaps[h]) { mi_heap_delete(heaps[h]); heaps[h] = NULL; nod[h] = 0; } printf("H delete %d", h); }
+    else if (op < 94) { if (heaps[h]) { if (!nod[h]) { for (int k = 0; k < NB; k++) if (blk[k] && mi_heap_contains_block(heaps[h], blk[k])) blk[k] = NULL; }
+        mi_heap_destroy(heaps[h]); heaps[h] = NULL; nod[h] = 0; } printf("H destroy %d", h); }
     else if (op < 98) { int hh = (int)(rnd() % (NH + 1)); if (heaps[hh]) mi_heap_set_default(heaps[hh]); printf("H setdefault %d", hh); }
     else { mi_collect(rnd() % 2); printf("H collect"); }
     dump();
